@@ -17,6 +17,7 @@ from concurrent.futures import ThreadPoolExecutor
 import c04_cfgs
 import common as C
 import ffi
+import sym_corpus
 
 LEVEL = "model_checking"
 BACK = os.path.join(C.SPEC, "back")
@@ -433,6 +434,23 @@ def replay_model_counterexamples(res):
     validate_symbols(res, obs, "known")
 
 
+def corpus(res, tier):
+    """T over the repository corpus: every `sym` hook event + the emitted text, judged by Trace_SymEvents.tla."""
+    viol, drift, counts = sym_corpus.run(res, tier, "C04")
+    for v in viol:
+        if v["what"] == "duplicate-ident":
+            res.violation("duplicate-ident:corpus:%s" % v["case"], v)
+        elif v["what"] == "symbol":
+            shape = "linkcb" if v["linkcb"] else ("keyword" if v["keyword"] else ("cxx" if v["cxx"] else "plain"))
+            res.violation("symbol:corpus:%s:%s" % (shape, v["target"]), v)
+        # `dangling` rows belong to C16
+    for dr in drift[:10]:
+        res.drift.append("corpus sym event %s: %s %s ident=%s link=%s" % (dr["what"], dr["case"], dr["name"], dr["ident"], dr["link"]))
+    res.add(states=counts["states"], transitions=counts["states"], corpus_cases_validated=counts["ran"],
+            corpus_sym_events_validated=counts["sym"], traces_validated_against_impl=counts["ran"])
+    res.sample_case({"corpus_cases": counts["ran"], "sym_events": counts["sym"], "violations": len(viol), "drift": len(drift)}, cap=12)
+
+
 def replay_batch(res, types, libs, name, exec_counts):
     b = Batch(res, types, libs, name).run()
     n = validate_symbols(res, b.obs, name)
@@ -469,6 +487,7 @@ def run(res, tier):
         res.sample_case({"sweep": tag, "behaviours": len(libs), "libraries": len(merged), "example": f0["cname"],
                          "predicted": {k: f0["pred"].get(k) for k in ("ident", "link", "sig", "code", "rustty")}})
     replay_model_counterexamples(res)
+    corpus(res, tier)
     # ---- random libraries (TLC -simulate): all kinds, name shapes and options together -----------------
     nsim = 500 if thorough else 36
     types, libs = generate(res, "Gen_Funcs_sim_t.cfg" if thorough else "Gen_Funcs_sim_q.cfg", simulate=nsim, seed=seed, name="sim")
